@@ -30,10 +30,12 @@ LEVEL_TEXT = ("Proved, for every registry and integer range, relative to the spe
               "C03_complete_abnf_no_filter - the headline with nothing but the ABNF, compile() and the integer range in it, for strings without '?': every such string of the grammar compiles wherever the range contains its integers "
               "(Proofs/AbnfSpell.v inverts ABNF derivations into token-grammar derivations and spellings); C03_abnf_lexical_rules - every alternative of every lexical rule (blank space, non-ASCII name shorthand, int, every number "
               "spelling, function names, both string kinds with every escape form) is a token text the spellings range over and converts without error. "
-              "NOT proved (partial): the ABNF -> spelling inversion for filter selectors (logical-expr and below); there validity is a property of the derivation, not of the syntax tree (a parenthesised function argument is "
-              "a logical expression), which is what the typed token grammar QT captures; "
+              "C03_complete_abnf_no_call - the same with filter selectors (logical expressions, comparisons, parentheses, negation, existence tests, nested queries and nested filters): every string of the RFC grammar that makes no "
+              "function call compiles (Proofs/AbnfSpellF.v; the sub-language is the grammar with function-expr removed from comparable and test-expr, C03_no_call_is_rfc). "
+              "NOT proved (partial): strings WITH function calls from the ABNF; there validity depends on the registry and on the derivation, not on the syntax tree (a parenthesised function argument is "
+              "a logical expression), which is what the typed token grammar QT captures - the theorem there is C03_complete_spelled; "
               "every generated valid query, rendered in every lexical form, must compile to the generating structure.")
-LEVEL_NOTE = "Partial only in the link ABNF -> spellings for filter selectors. Trusted: Coq kernel, grammar transcription, the spelling relation (Proofs/LexSpell.v astep) as a reading of where the ABNF allows blanks, renderer (self-checked), extraction and driver."
+LEVEL_NOTE = "Partial only in the link ABNF -> spellings for function calls. Trusted: Coq kernel, grammar transcription, the spelling relation (Proofs/LexSpell.v astep) as a reading of where the ABNF allows blanks, renderer (self-checked), extraction and driver."
 
 
 def nest(rng, depth):
